@@ -265,7 +265,7 @@ func genPair(rng *rand.Rand, k int, big bool) (old, new *tree, desc string) {
 
 	for _, p := range oldPaths {
 		c := old.Files[p]
-		switch r := rng.Intn(16); {
+		switch r := rng.Intn(20); {
 		case r == 0: // removed
 			tag("removed")
 		case r == 1: // renamed
@@ -339,6 +339,31 @@ func genPair(rng *rand.Rand, k int, big bool) (old, new *tree, desc string) {
 			copy(d[:BS], c[:BS])
 			new.Files[p] = d
 			tag("same-size-first-block")
+		case r == 16 && len(c) > 3000: // same length, a few bytes changed close to (not at) the end, sometimes one earlier
+			d := append([]byte{}, c...)
+			for e := 0; e < 1+rng.Intn(3); e++ {
+				at := len(d) - 2 - rng.Intn(minInt(len(d)-2, 30000))
+				d[at] ^= byte(1 + rng.Intn(255))
+			}
+			if rng.Intn(2) == 0 {
+				d[rng.Intn(len(d)/2)] ^= 0x11
+			}
+			new.Files[p] = d
+			tag("tail-edit")
+		case r == 17 && len(c) > 40000: // the head of the old file needed again later (backward seeks to its start)
+			h := 1000 + rng.Intn(minInt(len(c)-1000, 60000))
+			switch rng.Intn(3) {
+			case 0: // header repeated as trailer
+				new.Files[p] = append(append([]byte{}, c...), c[:h]...)
+			case 1: // two parts swapped at an arbitrary point, then the head once more
+				new.Files[p] = append(append(append([]byte{}, c[h:]...), c[:h]...), c[:h/2]...)
+			default: // content doubled
+				new.Files[p] = append(append([]byte{}, c...), c...)
+			}
+			tag("head-again")
+		case r == 18: // a few bytes in front: everything after is shifted by less than a block
+			new.Files[p] = append(randBytes(rng, 1+rng.Intn(1000)), c...)
+			tag("front-insert")
 		default: // unchanged
 			new.Files[p] = c
 			tag("same")
